@@ -202,6 +202,132 @@ def zero_init(facts, res):
                 res.violation(R + ".group-ctor", tbf.rel(facts.path_of(m)), m["qname"], "missing-block@%d" % m["l"][1], m["l"][1], "constructor does not size block(s) %s" % missing)
 
 
+def row_sources(facts, cls="TbfParticlesContainer"):
+    """Every place where the container forms the address of a row of a multi-row block and stores it in a slot of an array of row
+    pointers: `A[r] = &V.getItem(i, j) (+ terms)`.  Returns records {fn, node, slot (the subscript r), item (i), row (j), terms, viewer
+    text (through a local, a parameter bound at the call sites, or directly), target (name of A and whether it is a data member)}."""
+    out = []
+    methods = [m for m in facts.methods_of(cls) if tbf.body(m) is not None and not m.get("inst")]
+    byname = {}
+    for m in methods:
+        byname.setdefault(m["name"], []).append(m)
+
+    def addends(e):
+        e = strip(e)
+        if e.get("k") == "BinaryOperator" and e.get("op") == "+":
+            return addends(kids(e)[0]) + addends(kids(e)[1])
+        return [e]
+
+    for m in methods:
+        decls = {v["did"]: v for v in walk(tbf.body(m)) if v.get("k") == "VarDecl"}
+        pidx = {p["did"]: i for i, p in enumerate(m["params"])}
+        for x in walk(tbf.body(m)):
+            if not (x.get("k") == "BinaryOperator" and x.get("op") == "="):
+                continue
+            l = strip(kids(x)[0])
+            if not (l.get("k") in ("ArraySubscriptExpr", "CXXOperatorCallExpr") and len(kids(l)) >= 2):
+                continue
+            parts = addends(kids(x)[1])
+            gi = [a for a in parts if a.get("k") == "UnaryOperator" and a.get("op") == "&" and strip(kids(a)[0]).get("k") in ("CallExpr", "CXXMemberCallExpr") and tbf.callee_name(strip(kids(a)[0])) == "getItem"]
+            if len(gi) != 1:
+                continue
+            call = strip(kids(gi[0])[0])
+            args = tbf.call_args(call)
+            if len(args) != 2:
+                continue
+            base = strip(tbf.call_base(call)) if tbf.call_base(call) is not None else None
+            vtexts = []
+            if base is not None and base.get("k") == "DeclRefExpr" and base.get("did") in decls and kids(decls[base["did"]]):
+                vtexts = [facts.ntext(kids(decls[base["did"]])[0])]
+            elif base is not None and base.get("k") == "DeclRefExpr" and base.get("did") in pidx:
+                # a viewer handed to a helper: bound at each call site
+                for g in methods:
+                    for c_ in walk(tbf.body(g)):
+                        if c_.get("k") in ("CallExpr", "CXXMemberCallExpr") and tbf.callee_name(c_) == m["name"] and len(tbf.call_args(c_)) == len(m["params"]):
+                            vtexts.append((g["name"], facts.ntext(tbf.call_args(c_)[pidx[base["did"]]])))
+            elif base is not None:
+                vtexts = [facts.ntext(base)]
+            tgt = strip(kids(l)[-2])
+            out.append(dict(fn=m, node=x, slot=strip(kids(l)[-1]), item=strip(args[0]), row=strip(args[1]), terms=[a for a in parts if a is not gi[0]], viewers=vtexts,
+                            target=tgt.get("name"), member=tgt.get("k") in ("MemberExpr", "CXXDependentScopeMemberExpr"), tparam=pidx.get(tgt.get("did"))))
+    return out
+
+
+def row_addressing(facts, res):
+    """C06.10: the group constructor stores value (p, v) through the block's viewer, `V.getItem(p, v)`; the accessors hand out one pointer per
+    row and the kernels read `row[v][p]`.  Both name the same bytes only if the pointer of row v is the viewer's own address of an item of
+    THAT row, moved along the row only: `&V.getItem(i, v) + (terms not depending on v)`.  A row pointer computed from another row's address
+    and a hand-made stride duplicates the viewer's layout rule (leading dimension rounded up to the alignment) and silently disagrees with it
+    for the sizes where the rounding differs."""
+    R = "C06.10.row-addressing"
+    recs = row_sources(facts)
+    n = 0
+    for r in recs:
+        fn = r["fn"]
+        n += 1
+        res.instance(R, "%s@%d" % (fn["qname"], r["node"]["l"][1]), facts.loc(r["node"]), "%s[%s] = &viewer.getItem(%s, %s)%s" % (r["target"], facts.ntext(r["slot"]), facts.ntext(r["item"]), facts.ntext(r["row"]),
+                     "".join(" + " + facts.ntext(t)[:40] for t in r["terms"])))
+        f = tbf.rel(facts.path_of(r["node"]))
+        sd = r["slot"].get("did") if r["slot"].get("k") == "DeclRefExpr" else None
+        same_row = (sd is not None and r["row"].get("did") == sd) or (r["slot"].get("k") == "IntegerLiteral" and r["row"].get("k") == "IntegerLiteral" and r["slot"].get("val") == r["row"].get("val"))
+        if not same_row:
+            res.violation(R, f, fn["qname"], "row@%d" % r["node"]["l"][1], r["node"]["l"][1],
+                          "the pointer of row `%s` is formed from the viewer's address of row `%s`: the viewer alone knows where a row starts (its leading dimension is rounded up to the alignment); the constructor wrote value (p, v) at getItem(p, v), the kernels now read row v somewhere else"
+                          % (facts.ntext(r["slot"]), facts.ntext(r["row"])))
+            continue
+        dep = [t for t in r["terms"] if sd is not None and any(z.get("k") == "DeclRefExpr" and z.get("did") == sd for z in walk(t))]
+        if dep:
+            res.violation(R, f, fn["qname"], "stride@%d" % r["node"]["l"][1], r["node"]["l"][1],
+                          "the pointer of row `%s` is moved by `%s`, which depends on the row: a hand-made row stride next to the viewer's own" % (facts.ntext(r["slot"]), facts.ntext(dep[0])[:60]))
+    # coverage: every local array of row pointers an accessor fills is filled in one of the recognised ways
+    cls = "TbfParticlesContainer"
+    methods = [m for m in facts.methods_of(cls) if tbf.body(m) is not None and not m.get("inst")]
+    cached = {r["target"] for r in recs if r["member"]}
+    helpers = {(r["fn"]["name"], r["tparam"]) for r in recs if r["tparam"] is not None}
+    arrays = 0
+    for m in methods:
+        for v in walk(tbf.body(m)):
+            if v.get("k") != "VarDecl" or not re.search(r"array<[^,]*\*\s*,|\*\s*\[", v.get("t", "")) or "pair<" in v.get("t", ""):
+                continue
+            arrays += 1
+            did = v["did"]
+            ok = any(r["fn"] is m and r["target"] == v.get("name") and not r["member"] for r in recs)
+            for c_ in walk(tbf.body(m)):
+                if c_.get("k") in ("CallExpr", "CXXMemberCallExpr"):
+                    for i, a in enumerate(tbf.call_args(c_)):
+                        if strip(a).get("did") == did and (tbf.callee_name(c_), i) in helpers:
+                            ok = True
+                if c_.get("k") == "BinaryOperator" and c_.get("op") == "=":
+                    l = strip(kids(c_)[0])
+                    if l.get("k") in ("ArraySubscriptExpr", "CXXOperatorCallExpr") and len(kids(l)) >= 2 and strip(kids(l)[-2]).get("did") == did:
+                        slot = strip(kids(l)[-1])
+                        parts = []
+
+                        def add_(e):
+                            e = strip(e)
+                            if e.get("k") == "BinaryOperator" and e.get("op") == "+":
+                                add_(kids(e)[0]); add_(kids(e)[1])
+                            else:
+                                parts.append(e)
+                        add_(kids(c_)[1])
+                        src = [q for q in parts if q.get("k") in ("ArraySubscriptExpr", "CXXOperatorCallExpr") and len(kids(q)) >= 2 and strip(kids(q)[-2]).get("name") in cached]
+                        if len(src) == 1:
+                            ok = True
+                            n += 1
+                            res.instance(R, "%s@%d" % (m["qname"], c_["l"][1]), facts.loc(c_), "%s[%s] = cached %s" % (v.get("name"), facts.ntext(slot), facts.ntext(kids(c_)[1])[:60]))
+                            sidx = strip(kids(src[0])[-1])
+                            others = [q for q in parts if q is not src[0]]
+                            if facts.ntext(sidx) != facts.ntext(slot) or any(z.get("k") == "DeclRefExpr" and z.get("did") == slot.get("did") and slot.get("did") is not None for q in others for z in walk(q)):
+                                res.violation(R, tbf.rel(facts.path_of(c_)), m["qname"], "cached-row@%d" % c_["l"][1], c_["l"][1],
+                                              "the pointer of row `%s` is taken from the cached address of row `%s` / moved by a row-dependent term" % (facts.ntext(slot), facts.ntext(sidx)))
+            if not ok:
+                raise AnalysisBroken("%s: the row-pointer array '%s' (%s) is filled in a way the row-addressing rule does not recognise" % (m["qname"], v.get("name"), facts.loc(v)))
+    res.instance(R, "coverage", "src/core/tbfparticlescontainer.hpp", "%d local row-pointer arrays, each filled from a viewer's getItem (directly, through a helper's out-parameter, or from a cached member)" % arrays)
+    res.floor(R, arrays, 6, "local row-pointer arrays in the accessors of TbfParticlesContainer (8 on the pinned tree)")
+    res.floor(R + ".sources", n, 1, "row-pointer sources")
+    return n
+
+
 def copy_provenance(facts, res):
     """C06.5: in the group constructor the sorted slot p receives the original index orig(p) and the data
     row of input particle orig(p), value by value - the same orig(p) on both sides, taken from the group
@@ -216,11 +342,23 @@ def copy_provenance(facts, res):
     f = tbf.rel(facts.path_of(fn))
     ginfo, positions = fn["params"][0]["did"], fn["params"][1]["did"]
 
+    rows_ = row_sources(facts)
+
     def block_of(accessor):
         ms = [m for m in facts.methods_of("TbfParticlesContainer") if m["name"] == accessor]
         ks = set()
         for m in ms:
             ks |= set(re.findall(r"getViewerForBlock(?:Const)?<(\d+)>\(\)\.getItem\(leafHeader\.offSet", facts.ntext(tbf.body(m))))
+        if not ks:
+            # the row pointers come from a helper the accessor hands a viewer to, or from a member another function fills from a viewer
+            for m in ms:
+                reads = {y.get("name") for y in walk(tbf.body(m)) if y.get("k") in ("MemberExpr", "CXXDependentScopeMemberExpr")}
+                for r_ in rows_:
+                    for v_ in r_["viewers"]:
+                        if isinstance(v_, tuple) and v_[0] == accessor:
+                            ks |= set(re.findall(r"getViewerForBlock(?:Const)?<(\d+)>", v_[1]))
+                        elif not isinstance(v_, tuple) and r_["member"] and r_["target"] in reads:
+                            ks |= set(re.findall(r"getViewerForBlock(?:Const)?<(\d+)>", v_))
         if len(ks) != 1:
             raise AnalysisBroken("cannot derive the memory block behind %s" % accessor)
         return next(iter(ks))
@@ -858,6 +996,8 @@ def run(res, tier):
     header_coordinates(facts, res)
     res.rule("C06.9 leaf assignment: particles are sorted by the index getIndexFromPosition gave them (a packed key must keep all 63 index bits, in order, above everything else - bit provenance) and leaves are cut where that key changes")
     leaf_assignment(facts, res)
+    res.rule("C06.10 row addressing: the pointer the accessors hand out for row v of a particle block is the viewer's own address of an item of row v, moved along that row only (the constructor writes value (p, v) at getItem(p, v); a hand-made row stride reads other bytes when it differs from the viewer's aligned leading dimension)")
+    row_addressing(facts, res)
     narrowing(res, tier)
     k = constcast_lint(facts, res)
     curve_domains(facts, res)
